@@ -146,7 +146,14 @@ let rec tree_sx = function
 
 let ctrs_sx = function L cs -> List.map ctr_sx cs | x -> bad "contract list" x
 
+let fdef_sx = function
+  | L [A "datom"; a] -> DAtom (atom_sx a)
+  | L [A "dcomp"; a] -> DComp (atom_sx a)
+  | L [A "ddep"; o; j] -> DDep (obs_sx o, str_sx j)
+  | x -> bad "field definition" x
+
 let container_sx = function
+  | L (A "krecr" :: ds) -> KRecR (List.map (function L [k; d] -> (str_sx k, fdef_sx d) | x -> bad "field" x) ds)
   | L [A "ktree"; t] -> KTree (tree_sx t)
   | L (A "karr" :: xs) -> KArr (List.map atom_sx xs)
   | L (A "karr2" :: rows) -> KArr2 (List.map (function L r -> List.map atom_sx r | x -> bad "row" x) rows)
